@@ -33,6 +33,8 @@ META = dict(
 W = D.WARMUP
 LENGTHS_Q = [200, W, W + 1, 300]
 LENGTHS_T = [150, 200, W - 1, W, W + 1, W + 2, 300, 480]
+LONG_CASES = [("random", W + 1, 11), ("trend", 400, 12), ("trend", 1000, 13)]
+LONG_CASES_T = [("random", 1000, 14), ("spike", 700, 15), ("real", 1000, 16)]
 KINDS_Q = ["random", "spike"]
 KINDS_T = ["random", "spike", "trend", "flat", "real", "alternating"]
 
@@ -41,12 +43,15 @@ def job(item):
     entry, vs, cases = item
     traces, stats = [], {"calls": 0, "skipped": 0, "exc": {}, "single_raised": [], "not_series": set()}
     with contextlib.redirect_stdout(io.StringIO()):
-        for (kind, n, seed) in cases:
+        for case in cases:
+            kind, n, seed = case[:3]
+            which = case[3] if len(case) > 3 else None          # indices of the parameter sets this series gets
             sp = (kind, n, seed)
             c = D.build_series(sp)
             c2 = D.build_series((kind, n, seed + 1000))
-            for kw in vs:
-                traces += record(entry, kw, sp, c, c2, stats)
+            for j, kw in enumerate(vs):
+                if which is None or j in which:
+                    traces += record(entry, kw, sp, c, c2, stats)
     stats["not_series"] = sorted(stats["not_series"])
     return entry["name"], traces, stats
 
@@ -119,7 +124,30 @@ def plan(ctx, cat):
     lengths = ctx.pick(LENGTHS_Q, LENGTHS_T)
     nvar = ctx.pick(3, 9)
     cases = [(k, n, 1 + i) for i, k in enumerate(kinds) for n in lengths]
-    return [(e, D.variants(e, rng, nvar, sweep=not ctx.quick), cases) for e in cat if e["sequential"]]
+    items = []
+    for e in cat:
+        if not e["sequential"]:
+            continue
+        vs = D.variants(e, rng, nvar, sweep=not ctx.quick)
+        nrand = len(vs)
+        cs = [c + (list(range(nrand)),) for c in cases]
+        # long windows on long inputs: the history before the trailing 240 candles still weighs on the value, so a result
+        # computed on the wrong slice of the input differs visibly (clause 3: single(long) = Last(seq(trailing window)))
+        extra = [0]
+        slow = D.slow_variant(e)
+        if slow is not None:
+            vs.append(slow)
+            extra.append(len(vs) - 1)
+        if e["name"] == "ma":
+            # the generic selector: every moving-average type, with a short and a long window
+            for mt in D.ENUM_INT["matype"]:
+                for per in (14, 120):
+                    vs.append({"matype": mt, "period": per, "source_type": "close" if mt % 2 else "hl2"})
+                    extra.append(len(vs) - 1)
+        for c in LONG_CASES if ctx.quick else LONG_CASES + LONG_CASES_T:
+            cs.append(c + (extra,))
+        items.append((e, vs, cs))
+    return items
 
 
 def sig_of(h, verdict):
@@ -159,7 +187,8 @@ def run(ctx):
     ctx.log("evaluating %d indicators" % len(items))
     res = D.pmap(job, items)
     crashed = []
-    retry = [(it[0], [kw], it[2]) for it, r in zip(items, res) if r[0] == "CRASH" for kw in it[1]]
+    retry = [(it[0], [kw], [c[:3] + (([0] if j in c[3] else []),) for c in it[2]])
+             for it, r in zip(items, res) if r[0] == "CRASH" for j, kw in enumerate(it[1])]
     res = [r for r in res if r[0] != "CRASH"]
     if retry:
         for it, r in zip(retry, D.pmap(job, retry)):
@@ -202,7 +231,7 @@ def run(ctx):
         "indicators_covered": len(per_ind), "interpreter_crashes": crashed,
         "fields_covered": len({(t["hdr"]["ind"], t["hdr"]["field"]) for t in traces}),
         "outside_property_no_sequential_parameter": outside, "non_series_fields": notseries,
-        "input_lengths": ctx.pick(LENGTHS_Q, LENGTHS_T),
+        "input_lengths": ctx.pick(LENGTHS_Q, LENGTHS_T) + sorted({c[1] for c in LONG_CASES}),
         "trace_events_checked_by_tlc": sum(r.generated for r in results), "rejected_traces": bad, "samples": samples,
         "rule": "one case = (indicator, field, parameter set, candle series incl. its length): events seq / win (length > 240) "
                 "/ single. Non-trivial = the sequential series has >= 30 finite entries; distinct by (indicator, field, "
